@@ -24,6 +24,7 @@ type recW struct {
 	flushes     int
 	cancelAt    int // cancel the context after this many writes (-1: never)
 	cancel      func()
+	wrong       bool // the error-less Flush of a writer that also has FlushError was used
 }
 
 var errStubIO = errors.New("stub i/o error")
@@ -69,7 +70,9 @@ type wBoth struct{ r *recW }
 
 func (w wBoth) Write(p []byte) (int, error) { return w.r.write(p) }
 func (w wBoth) FlushError() error           { return w.r.flush() }
-func (w wBoth) Flush()                      { *w.r.trace = append(*w.r.trace, wEvent{"wrong-flush", ""}) }
+
+// Flush behaves like net/http's response.Flush: it performs the flush and swallows its error.
+func (w wBoth) Flush() { w.r.wrong = true; w.r.flush() }
 
 type ioWriter interface {
 	Write(p []byte) (int, error)
@@ -171,9 +174,7 @@ func HarnessC02() {
 	}
 	verifAssume(ends) // otherwise proxyIn (correctly) waits for more input for ever
 	err := b.proxyIn(ctx, sl, mkWriter(kind, r))
-	for _, ev := range trace {
-		verifAssert(ev.kind != "wrong-flush", "C02.prefers-error-reporting-flush")
-	}
+	verifAssert(!r.wrong, "C02.prefers-error-reporting-flush")
 	c1 := checkShellRun(kind, trace, lines, 0, r, err, 0, "C02.shell1")
 	failed1 := err != nil
 	if !failed1 {
